@@ -1728,7 +1728,11 @@ impl MachineState {
                 Err(self.open_past_eos_error(stream, caller, arity))
             }
             EOFAction::EOFCode => {
-                let end_of_stream = if stream.options().stream_type() == StreamType::Binary {
+                // get_code/2 and peek_code/2 report the end of a text stream as -1 too.
+                let end_of_stream = if stream.options().stream_type() == StreamType::Binary
+                    || caller == atom!("get_code")
+                    || caller == atom!("peek_code")
+                {
                     fixnum_as_cell!(Fixnum::build_with(-1))
                 } else {
                     atom_as_cell!(atom!("end_of_file"))
